@@ -14,7 +14,7 @@
     of every excluded host, filters applied                   (-w / -x arguments: list_split, the dash of -x),
                                                               `file_contents_to_contacted` (file CONTENTS, includes,
                                                               WCOLL, two-bracket words: C10's theorem imported)
-  -x list / `-` word / -x ^file / -^file                    `exclusion_correct_options`; files: C10
+  -x list / `-` word / -x ^file / -^file                    `x_option_is_dash_words` (every variant), `exclusion_correct_options`; files: C10
                                                               `target_list_end_to_end` + `excluded_file_same_reader`
   /re/ keeps only matches, dash /re/ removes all matches    `filterRegex_hosts`, `applyRegex_hosts`,
                                                               `filter_keep_drop_complement`, `filter_matches_everything`,
@@ -221,6 +221,23 @@ example : demoOptions.map OptG.ev = [.w "foo[1-3]".toList, .x "foo2".toList, .w 
 theorem exclusion_correct_options_instance :
     cliFinal Cfg.repaired demoEnv (demoOptions.map OptG.ev) = .ok ["foo1".toList, "bar".toList] := by
   rw [exclusion_correct_options Cfg.repaired rfl rfl rfl demoEnv demoOptions (by decide) demo_domain]
+  decide
+
+/-- EVERY SOURCE OF EXCLUSIONS IS ONE MECHANISM: a `-x LIST` option and a `-w` option holding the same pieces behind
+    dashes are the same words for `wcoll_arg_process` — host words, caret-file words (an exclusion file) and filters
+    alike — so `opt_args` ends with the same list; for EVERY variant of the code, whatever stands before and after -/
+theorem x_option_is_dash_words (cfg : Cfg) (env : Env) (pre post : List Ev) (ps : List Str)
+    (hok : ∀ p ∈ ps, Wcoll.pieceOK p = true) (hok' : ∀ p ∈ ps, Wcoll.pieceOK ('-' :: p) = true)
+    (hd : optText (ps.map ('-' :: ·)) ≠ ['-']) :
+    cliFinal cfg env (pre ++ [.x (optText ps)] ++ post) =
+      cliFinal cfg env (pre ++ [.w (optText (ps.map ('-' :: ·)))] ++ post) :=
+  cliFinal_x_eq_dash_w cfg env pre post ps hok hok' hd
+
+/-- the option `-x foo2,^F,/3/` and the `-w` option with the same three pieces behind dashes (the hypotheses are
+    decidable) -/
+example : optText ["foo2".toList, "^F".toList, "/3/".toList] = "foo2,^F,/3/".toList ∧
+    optText (["foo2".toList, "^F".toList, "/3/".toList].map ('-' :: ·)) = "-foo2,-^F,-/3/".toList ∧
+    (∀ p ∈ ["foo2".toList, "^F".toList, "/3/".toList], Wcoll.pieceOK p = true ∧ Wcoll.pieceOK ('-' :: p) = true) := by
   decide
 
 /-- ... and neither the grouping of the words into options nor their order matters -/
